@@ -146,6 +146,48 @@ theorem usable_flag (s : State) :
         injection h2 with hu _ _
         rw [hu, h1]
 
+/-! #### one server id: the advertised filter and the loop test
+
+The daemon has ONE server id `own` (its bit positions in a Bloom filter).  `NtpManager` folds it into the advertised
+filter (`from_used_sources … server_id`) and hands it to every source (`NtpSourceInfo.server_id`), which tests the
+peers' complete filters against it (`accept_synchronization`: `bloom_filter.contains_id(&server_id)`).
+**Named assumption `WiringOneId`** — both uses receive the same id — is not a fact about this model (the model has a
+single `own`) but about `NtpManager::new`; it is evaluated directly on the implementation after every op by the
+oracle clauses `one_server_id` / `bloom_loop_end_to_end` (streams `c33_manager`, `c33_advert`, manager mode of
+`sm_c33`). -/
+
+/-- `BloomFilter::contains_id` on bit positions -/
+def containsId (bits own : List Nat) : Bool := own.all fun b => bits.contains b
+
+/-- **C33.advertised_contains_own** — whatever sources are used, the advertised filter contains the daemon's id. -/
+theorem advertised_contains_own (localStratum : Nat) (own : List Nat) (srcs : List SrcSnap) :
+    containsId (fromUsedSources localStratum own srcs).bloomBits own = true := by
+  simp only [containsId, List.all_eq_true, List.contains_iff_mem]
+  intro b hb
+  exact (advertise_bloom localStratum own srcs b).mpr (Or.inl hb)
+
+/-- **C33.relayed_advertisement_refused** — (under `WiringOneId`) a peer whose complete Bloom filter contains
+    everything this daemon advertises — e.g. a downstream server that folded our filter into its own, as
+    `from_used_sources` does — is never accepted for synchronisation: the value `accept` tests,
+    `containsId peerBits own`, is true, and `accept … (some true) …` is never `Ok`. -/
+theorem relayed_advertisement_refused (localStratum : Nat) (own : List Nat) (srcs : List SrcSnap)
+    (peerBits : List Nat) (h : ∀ b ∈ (fromUsedSources localStratum own srcs).bloomBits, b ∈ peerBits)
+    (stratum sourceId reach lst : Nat) (lids : List Nat) :
+    containsId peerBits own = true ∧
+    accept stratum sourceId (some (containsId peerBits own)) reach lst lids ≠ .ok () := by
+  have hc : containsId peerBits own = true := by
+    simp only [containsId, List.all_eq_true, List.contains_iff_mem]
+    intro b hb
+    exact h b ((advertise_bloom localStratum own srcs b).mpr (Or.inl hb))
+  refine ⟨hc, ?_⟩
+  intro hok
+  have := (accept_partial _ _ _ _ _ _ hok).2.2.1
+  rw [hc] at this
+  exact this rfl
+
+/-- the converse direction of the test: a filter that lacks one of the id's bits does not trigger the Bloom clause -/
+example : containsId [1, 2, 3] [2, 3] = true ∧ containsId [1, 2] [2, 3] = false := by decide
+
 /-! #### the full statement and the finding -/
 
 /-- what the property demands of a source that is marked usable -/
@@ -195,3 +237,5 @@ end NtpVerif.C33
 #print axioms NtpVerif.C33.usable_flag
 #print axioms NtpVerif.C33.usable_partial
 #print axioms NtpVerif.C33.counterexample
+#print axioms NtpVerif.C33.advertised_contains_own
+#print axioms NtpVerif.C33.relayed_advertisement_refused
